@@ -13,6 +13,23 @@ model, which rebuilds the channel views and evaluates the same code paths.
 result is read from the solver and handed to the model; its contract
 (`Hieq · full_W_H = W_H`) is checked numerically on every case.
 
+Long-lived objects ("sessions"): ONE channel object and ONE solver bound to it live through
+2..6 seeded scenarios reached through the public API (init_from_channel_matrix / randomize
+with the same layout, other antenna numbers, another number of users; path loss kept,
+changed, removed; noise variance; post filters; precoders / powers / filters handed over
+again or left alone).  After EVERY step every reported quantity is compared with the
+(stateless) model on the CURRENT inputs, with first principles on the current raw channel
+and path loss, and with a fresh object given the same current inputs.  A path loss set for
+another number of links is discarded by the new realisation (documented behaviour of
+_update_pathloss_big_matrix).  The solver's filters are handed over again whenever its
+cached full_W_H would be stale w.r.t. new precoders (iabase cache coherence is C10's
+property); when the solver is left alone its own full_W_H is the filter first principles use.
+
+noise_var, the external power and the transmit powers are drawn in every numeric type
+(Python int / float / bool, np.int32/64, np.float16/32/64, power vectors as int / float32
+arrays, lists, scalars through the P setter), channels and precoders also in integer and
+real dtype.
+
 The oracles evaluate the property on the real code from first principles with scalar
 loops (no matrix products of the form under test): power of the desired stream after
 the filter over the summed powers of every other stream of every user + external
@@ -42,12 +59,18 @@ CLAIM = {
             'covariances (+ external + noise), Hermitian and positive semidefinite; SINR in dB and the sum capacity '
             'are 10 log10 and sum log2(1+SINR) of those values, and calc_SINR raises as soon as one stream does. The '
             'model is tied to multiuser.py / iabase.py / misc.py by correspondence within 1e-9 (1+SINR) on both '
-            'implementations and every code path.',
+            'implementations and every code path, on fresh objects and after every step of seeded lives of one '
+            're-used channel object + solver (the model has no state: reports depend on the current inputs only), '
+            'with noise variance / external power / transmit powers given in every numeric type.',
     'note': 'trusted: binary64 rounding (compared within 1e-9 relative to the forward-error scale (1+SINR), the '
             'denominator being computed as total power minus own stream), np.linalg.solve in full_W_H (its result is '
             'an input of the model, contract checked per case; the theorems hold for every filter matrix), the '
-            'harness. noise_var None/0 with no interference and no other stream is 0/0: ZeroDivisionError (modelled, '
-            'excluded from the value theorems by the denominator hypothesis). The IA solver has no external-power '
+            'harness. noise_var None/0 with no interference and no other stream is 0/0: a tagged "zero denominator" '
+            'outcome in the model (excluded from the value theorems by the denominator hypothesis); the channel '
+            'object raises ZeroDivisionError there, the IA solver reports a non-finite entry (inf/nan, also in dB '
+            'and sum capacity) and the harness maps both to that tag. Sessions read the raw realisation that '
+            'randomize stored from _big_H_no_pathloss; a path loss set for another number of links is discarded by '
+            'a new realisation (documented behaviour). The IA solver has no external-power '
             'parameter: it is compared at the channel object\'s default pe = 1. Fixed in the worktree: the solver '
             'ignored external interference; integer channel + integer pe + noise raised a casting error. A '
             'MultiUserChannelMatrixExtInt with zero external sources is outside the generators (its Nr/Nt slices '
@@ -134,7 +157,9 @@ def sinr_close(a, b, rtol=1e-9):
     if not (math.isfinite(a) and math.isfinite(b)):
         return False
     m = max(abs(a), abs(b))
-    return abs(a - b) <= rtol * max(m, 1e-300) * (1.0 + m)
+    # + absolute floor: a signal amplitude u^H H f that vanishes by cancellation is rounding noise of relative
+    # size 1e-16, i.e. a "zero" SINR is only known to about 1e-32 of the uncancelled SINR
+    return abs(a - b) <= rtol * max(m, 1e-300) * (1.0 + m) + 1e-18
 
 
 def mat_close(a, b, rtol=1e-9):
@@ -302,22 +327,24 @@ def _run_solver(case):
     return eval_solver(sol, build_channel(case), case)
 
 
-def sync_solver(sol, case):
-    """hand the precoders, powers and receive filters of `case` to the solver through its public setters
-    (precoders first, filters last: set_receive_filters is what drops the cached full_W_H)"""
+def sync_solver(sol, case, precoders=True, filters=True):
+    """hand the precoders + powers and / or the receive filters of `case` to the solver through its
+    public setters"""
     _, F, _, U = arrays(case)
-    pa = p_arg(case)
-    if pa is None:
-        sol.set_precoders(full_F=obj(F))
-    elif np.ndim(pa) == 0 and not isinstance(pa, list):
-        sol.P = pa
-        sol.set_precoders(F=obj(F))
-    else:
-        sol.set_precoders(F=obj(F), P=pa)
-    if case.get('set_W'):
-        sol.set_receive_filters(W=obj(U))
-    else:
-        sol.set_receive_filters(W_H=obj([u.conj().T for u in U]))
+    if precoders:
+        pa = p_arg(case)
+        if pa is None:
+            sol.set_precoders(full_F=obj(F))
+        elif np.ndim(pa) == 0 and not isinstance(pa, list):
+            sol.P = pa
+            sol.set_precoders(F=obj(F))
+        else:
+            sol.set_precoders(F=obj(F), P=pa)
+    if filters:
+        if case.get('set_W'):
+            sol.set_receive_filters(W=obj(U))
+        else:
+            sol.set_receive_filters(W_H=obj([u.conj().T for u in U]))
 
 
 def eval_solver(sol, ch2, case, synced=True):
@@ -336,7 +363,10 @@ def eval_solver(sol, ch2, case, synced=True):
             if heq.shape[0] != heq.shape[1] or heq.size == 0:
                 return None
             sv = np.linalg.svd(heq, compute_uv=False)
-            if sv[-1] <= 1e-6 * sv[0] or sv[0] == 0:
+            # singular or nearly so — relative to its own largest singular value and to the scale of the
+            # factors it is the product of (a 1x1 equivalent channel that vanishes is rounding noise)
+            scale = np.linalg.norm(U[k]) * np.linalg.norm(blocks['H'][k][k]) * np.linalg.norm(full_F[k])
+            if sv[-1] <= 1e-6 * sv[0] or sv[-1] <= 1e-8 * scale or sv[0] == 0:
                 return None
     try:
         wh = [np.array(sol.full_W_H[k], dtype=complex) for k in range(K)]
@@ -351,7 +381,11 @@ def eval_solver(sol, ch2, case, synced=True):
     # excludes; the margin keeps the comparison away from it (never compare near-ties).
     fullF_h = [np.asarray(F[k], dtype=complex) * (1.0 if pv is None else math.sqrt(pv[k])) for k in range(K)]
     fp = fp_streams(case, 'ic', fullF_h, [x.conj().T for x in wh], pe_value(dict(case, pe=None)), noise_value(case))
-    if any(not (d > 1e-6 * (sg + d)) for sg, d in fp.values()):
+    # … except the structural 0/0: ONE user with ONE stream, no noise, no external interference.  There the
+    # code subtracts two identically computed matrices, the denominator is exactly 0 whatever the filter, and
+    # the outcome ("zero denominator": non-finite entry on the solver side) is compared as a status.
+    lonely = (K == 1 and F[0].shape[1] == 1 and not noise_value(case) and not case['ext'])
+    if not lonely and any(not (d > 1e-6 * (sg + d)) for sg, d in fp.values()):
         return 'ill-conditioned'
     contract = 0.0
     if synced:
@@ -360,6 +394,11 @@ def eval_solver(sol, ch2, case, synced=True):
             contract = max(contract, float(np.abs(heq @ wh[k] - U[k].conj().T).max()) /
                            max(1.0, float(np.abs(U[k]).max())))
     s = call_guard(lambda: sol.calc_SINR())
+    # zero denominator: the channel object divides Python scalars (ZeroDivisionError), the solver divides
+    # with numpy and reports a non-finite entry (inf for x/0, nan for 0/0; dB values and sum capacity are
+    # then non-finite too).  Both are the model's tagged outcome "zero denominator".
+    if s[0] == 'ok' and not all(math.isfinite(float(x)) for r in s[1] for x in r):
+        s = ('error', 'ZeroDivisionError')
     out = {'full_F': full_F, 'full_W_H': wh, 'full_W': w, 'contract': contract, 'sinr': s}
     if s[0] == 'ok':
         out['sinr'] = ('ok', [[float(x) for x in r] for r in s[1]])
@@ -615,7 +654,143 @@ def o_capacity(case):
     return None
 
 
+# ------------------------------------------------------------- long-lived objects
+def run_session(sess):
+    """ONE channel object and ONE IA solver bound to it live through the steps of `sess`; after every
+    step every reported quantity is collected.  Returns one record per step with the scenario the object
+    is in at that point (`case`: current raw channel, current path loss, current noise variance, …)."""
+    with np.errstate(all='ignore'):
+        return _run_session(sess)
+
+
+def _run_session(sess):
+    mu, ia, _ = _impl()
+    ext = sess['ext']
+    ch = mu.MultiUserChannelMatrixExtInt() if ext else mu.MultiUserChannelMatrix()
+    sol = None
+    sol_ok = False
+    cur_big = None
+    out = []
+    cur_F = None
+    for st in sess['steps']:
+        c = dict(st['case'])
+        ops = st['ops']
+        K = c['K']
+        if c['F'] is None:      # inherited from the previous step (or about to be drawn by randomizeF)
+            c['F'] = cur_F
+        Nr = np.array(c['Nr'], dtype=int)
+        Nt = np.array(c['Nt'], dtype=int)
+        extra = (np.array(c['NtE'], dtype=int),) if ext else ()
+        if ops['real'] == 'init':
+            ch.init_from_channel_matrix(arrays(c)[0].copy(), Nr, Nt, K, *extra)
+        elif ops['real'] == 'randomize':
+            ch.set_channel_seed(ops['seed'])
+            ch.randomize(Nr, Nt, K, *extra)
+            # the raw realisation the object now stores (before any path loss)
+            c['big'] = enc(np.array(ch._big_H_no_pathloss, dtype=complex))
+        else:
+            c['big'] = cur_big
+        cur_big = c['big']
+        if ops['pl'] == 'set':
+            if ext:
+                ch.set_pathloss(np.array(c['pl'], dtype=float), np.array(c['ple'], dtype=float))
+            else:
+                ch.set_pathloss(np.array(c['pl'], dtype=float))
+        elif ops['pl'] == 'none':
+            ch.set_pathloss(None)
+        if ops['noise'] == 'set':
+            ch.noise_var = noise_arg(c)
+        if ops.get('post'):
+            ch.set_post_filter(obj(arrays(c)[3]))
+        if sol is None:
+            sol = ia.IASolverBaseClass(ch)
+        if ops['sol'] != 'sync' and not sol_ok:
+            # the solver was outside its preconditions in the previous step (singular equivalent channel):
+            # start over with everything handed over again
+            ops = dict(ops, sol='sync')
+        if ops['sol'] == 'sync':
+            sync_solver(sol, c)
+        elif ops['sol'] == 'precoders':         # new precoders / powers, the filters stay where they are
+            sync_solver(sol, c, filters=False)
+        elif ops['sol'] == 'filters':           # new filters only
+            sync_solver(sol, c, precoders=False)
+        elif ops['sol'] == 'P':                 # only the power, through the property setter
+            sol.P = p_arg(c)
+        elif ops['sol'] == 'randomizeF':        # random unit-norm precoders drawn by the solver itself
+            sol._rs.seed(ops['seed'])
+            sol.randomizeF(np.array(c['Ns'], dtype=int), p_arg(c))
+            c['F'] = [enc(np.array(sol.F[k], dtype=complex)) for k in range(K)]
+        cur_F = c['F']
+        rec = {'case': c, 'ops': ops}
+        for what in ops['order']:
+            if what == 'sol':
+                try:
+                    rec['sol'] = eval_solver(sol, ch, c, synced=(ops['sol'] != 'untouched'))
+                except np.linalg.LinAlgError:
+                    rec['sol'] = None
+                sol_ok = isinstance(rec['sol'], dict)
+            else:
+                rec[what] = eval_channel(ch, c, what == 'jp')
+        out.append(rec)
+    return out
+
+
+def same_reports(a, b):
+    """two (sinr, Q list) reports agree"""
+    if a[0][0] != b[0][0]:
+        return 'status %s vs %s' % (a[0], b[0])
+    if a[0][0] == 'ok':
+        for k, r in enumerate(a[0][1]):
+            for l, v in enumerate(r):
+                if not sinr_close(v, b[0][1][k][l]):
+                    return 'stream (%d,%d): %.17g vs %.17g' % (k, l, v, b[0][1][k][l])
+    for k in range(len(a[1])):
+        if not mat_close(a[1][k], b[1][k]):
+            return 'Q of receiver %d' % k
+    return None
+
+
+def o_session(sess):
+    """after EVERY step of the life of one channel object + one solver: every reported quantity equals
+    first principles on the CURRENT raw channel / path loss / noise / precoders / filters, and equals what
+    a fresh object reports for the same current inputs"""
+    tag = 'extint' if sess['ext'] else 'plain'
+    for i, rec in enumerate(run_session(sess)):
+        c, ops = rec['case'], rec['ops']
+        where = '@%s/%s:%s' % (ops['real'], ops['pl'], tag)
+        for what, name in (('ic', 'calc_SINR'), ('jp', 'calc_JP_SINR')):
+            r = judge_channel(c, what == 'jp', *rec[what])
+            if r is not None:
+                return ('%s:%s%s' % (name, r[0].split(':')[0], where), 'step %d: %s' % (i, r[1]))
+            d = same_reports(rec[what], run_channel(c, what == 'jp'))
+            if d is not None:
+                return ('%s:differs-from-fresh-object%s' % (name, where), 'step %d: %s' % (i, d))
+        o = rec.get('sol')
+        if isinstance(o, dict) and ops['sol'] != 'untouched':
+            # the equivalent channel passed the conditioning pre-check, so np.linalg.solve is accurate: a
+            # full_W_H that does not compensate the CURRENT equivalent channel is a stale one
+            if o['contract'] > 1e-7:
+                return ('IASolver:full_W_H-not-for-current-inputs%s' % where,
+                        'step %d (solver op %s): |Hieq full_W_H - W_H| = %.3e' % (i, ops['sol'], o['contract']))
+            if o['contract'] > 1e-9:
+                o = None
+        if isinstance(o, dict):
+            r = judge_solver(c, o)
+            if r is not None:
+                return ('IASolver:%s%s' % (r[0].split(':')[0], where), 'step %d: %s' % (i, r[1]))
+            if ops['sol'] != 'untouched':
+                f = run_solver(c)
+                if isinstance(f, dict):
+                    d = same_reports((o['sinr'], o['Q']), (f['sinr'], f['Q']))
+                    if d is None and o['sinr'][0] == 'ok' and not core.close(o['cap'], f['cap'], rtol=1e-9 * (1 + sum(sum(r) for r in o['sinr'][1]))):
+                        d = 'sum capacity %.17g vs %.17g' % (o['cap'], f['cap'])
+                    if d is not None:
+                        return ('IASolver:differs-from-fresh-object%s' % where, 'step %d: %s' % (i, d))
+    return None
+
+
 ORACLES = {
+    'session': o_session,
     'calc_SINR': o_calc_SINR,
     'calc_JP_SINR': o_calc_JP_SINR,
     'calc_SINR.rescaled-filter': o_scale,
@@ -782,6 +957,88 @@ class Gen:
             c['ptype'] = pt
         return c
 
+    def session(self, n_steps=None, ext=None):
+        """the life of one channel object (+ one solver): 2..6 scenarios reached from one another through
+        the public API — new realisation (init_from_channel_matrix / randomize, same layout, new antenna
+        numbers, new number of users) with the path loss kept / changed / removed, new noise variance (any
+        numeric type), post filters, precoders / powers / filters handed over again or left alone"""
+        rng = self.rng
+        ext = rng.chance(0.5) if ext is None else ext
+        n_steps = n_steps or rng.randint(2, 6)
+        kind = rng.choice(['gauss', 'gauss', 'gint', 'wide', 'rint'])
+        first = self.case(kind=kind, ext=ext, solver_ok=True)
+        dtype = first['dtype']
+
+        def order():
+            o = ['ic', 'jp', 'sol']
+            rng.shuffle(o)
+            return o
+        steps = [{'case': first,
+                  'ops': {'real': 'init' if dtype != 'complex' else rng.choice(['init', 'randomize']),
+                          'seed': rng.below(1 << 31), 'pl': 'set' if first['pl'] is not None else 'keep',
+                          'noise': 'set', 'post': False, 'sol': 'sync', 'order': order()}}]
+        if steps[0]['ops']['real'] == 'randomize':
+            first['big'] = None
+        for _ in range(1, n_steps):
+            prev = steps[-1]['case']
+            how = rng.choice(['same', 'same', 'same', 'antennas', 'users'])
+            real = rng.choice(['keep', 'keep', 'init', 'init', 'randomize', 'randomize'])
+            if how != 'same' and real == 'keep':
+                real = 'init'
+            if dtype != 'complex' and real == 'randomize':
+                real = 'init'
+            if how == 'same':
+                c = self.case(kind=kind, ext=ext, solver_ok=True, K=prev['K'],
+                              dims=(prev['Nr'], prev['Nt'], prev['Ns']), NtE=prev['NtE'])
+            elif how == 'antennas':     # same users and external sources, other antenna numbers
+                c = self.case(kind=kind, ext=ext, solver_ok=True, K=prev['K'])
+                if ext:
+                    c = self.case(kind=kind, ext=ext, solver_ok=True, K=prev['K'],
+                                  dims=(c['Nr'], c['Nt'], c['Ns']),
+                                  NtE=[rng.randint(1, 2) for _ in prev['NtE']])
+            else:
+                c = self.case(kind=kind, ext=ext, solver_ok=True)
+            c['dtype'] = dtype
+            same_links = (c['K'] == prev['K'] and len(c['NtE']) == len(prev['NtE']))
+            pl = rng.choice(['keep', 'keep', 'set', 'set', 'none'])
+            if pl == 'keep':
+                # a path loss set for another number of links is discarded by the new realisation
+                keepable = same_links or real == 'keep'
+                c['pl'], c['ple'] = (prev['pl'], prev['ple']) if keepable else (None, None)
+            elif pl == 'none':
+                c['pl'], c['ple'] = None, None
+            elif c['pl'] is None:
+                pl = 'none'
+            noise = rng.choice(['keep', 'set'])
+            if noise == 'keep':
+                c['noise'], c['ntype'] = prev['noise'], prev.get('ntype')
+            if real == 'keep':
+                c['big'] = prev['big']
+            elif real == 'randomize':
+                c['big'] = None
+            sol = 'sync'
+            if how == 'same':
+                sol = rng.choice(['sync', 'sync', 'untouched', 'untouched', 'P', 'precoders', 'filters', 'randomizeF'])
+                if sol == 'P' and prev['P'] is None:
+                    sol = 'precoders'
+                if dtype != 'complex' and sol == 'randomizeF':
+                    sol = 'precoders'
+                keep = {'sync': ('F', 'U', 'P', 'ptype', 'set_W') if rng.chance(0.4) else (),
+                        'untouched': ('F', 'U', 'P', 'ptype', 'set_W'),
+                        'P': ('F', 'U', 'set_W'), 'precoders': ('U', 'set_W'), 'filters': ('F', 'P', 'ptype'),
+                        'randomizeF': ('U', 'set_W')}[sol]
+                for f in keep:
+                    c[f] = prev[f]
+                if sol in ('P', 'randomizeF') and c['P'] is None:
+                    c['P'] = [1.0] * c['K']
+                    c['ptype'] = 'float'
+                if sol == 'randomizeF':
+                    c['F'] = None
+            steps.append({'case': c, 'ops': {'real': real, 'seed': rng.below(1 << 31), 'pl': pl, 'noise': noise,
+                                             'post': rng.chance(0.3), 'sol': sol, 'order': order(),
+                                             'layout': how}})
+        return {'ext': bool(ext), 'kind': kind, 'steps': steps}
+
     def zero_case(self):
         """exact scenarios whose denominator vanishes: a lone stream without noise, or a
         zero receive filter"""
@@ -794,7 +1051,9 @@ class Gen:
             c['U'] = [enc(dec(c['U'][0])[:, :1])]
             c['scale'] = [c['scale'][0][:1]]
             c['noise'] = rng.choice([None, 0.0])
+            c['ntype'] = rng.choice(NUMTYPES)
             c['why'] = 'lone-stream-no-noise'
+            c['solver_ok'] = True
         else:
             c = self.case(kind='gint')
             k = rng.below(c['K'])
@@ -890,7 +1149,6 @@ def cmp_Q(impl, model):
 
 
 def correspondence(ctx, cases):
-    drv = core.Driver(DRIVER)
     jobs, lines = [], []
     for i, case in enumerate(cases):
         branches_of(ctx, case)
@@ -909,20 +1167,30 @@ def correspondence(ctx, cases):
             if out == 'ill-conditioned':
                 ctx.branch('solver:denominator-below-1e-6-of-total(skipped)')
                 continue
-            if out['contract'] > 1e-9:
+            if out['contract'] > 1e-7:
                 ctx.tie_broken('correspondence', 'contract:np.linalg.solve',
                                'Hieq full_W_H - W_H = %.3e' % out['contract'], case)
+            if out['contract'] > 1e-9:
+                ctx.branch('solver:kernel-contract-margin(skipped)')
+                continue
             jobs.append(('solver', i, case, out, None))
             lines.append(solver_line(case, out['full_W_H']))
             ctx.branch('solver')
             if case['P'] is not None and len(set(case['P'])) > 1:
                 ctx.branch('unequal-power')
+    settle(ctx, jobs, lines)
+
+
+def settle(ctx, jobs, lines, prefix=''):
+    """send the request lines to the compiled model and compare every reply with what the
+    implementation reported (`prefix` distinguishes the long-lived-object runs)"""
+    drv = core.Driver(DRIVER)
     out_lines = []
     for s in range(0, len(lines), 2000):
         out_lines += drv.ask(lines[s:s + 2000])
     for (what, i, case, got, q), reply in zip(jobs, out_lines):
-        key = case_key(case, i)
-        tag = variant_tag(case)
+        key = case_key(case, i) + (prefix,)
+        tag = prefix + variant_tag(case)
         parts = reply.split('|')
         if reply == 'bad-op':
             ctx.corr(what + ':driver', case, 'request understood', 'bad-op', key=key + (what,))
@@ -955,6 +1223,34 @@ def correspondence(ctx, cases):
             if len(ctx.samples) < 5 and got['sinr'][0] == 'ok':
                 ctx.sample({'call': 'IASolver.calc_SINR:' + tag, 'K': case['K'], 'P': case['P'],
                             'impl': got['sinr'][1], 'model': m})
+
+
+def corr_sessions(ctx, sessions):
+    """the long-lived objects against the (stateless) model: after every step the model is given the
+    CURRENT inputs only"""
+    jobs, lines = [], []
+    for si, sess in enumerate(sessions):
+        try:
+            recs = run_session(sess)
+        except Exception as e:      # the oracle reports it with the input
+            ctx.branch('session:exception:' + type(e).__name__)
+            continue
+        for i, rec in enumerate(recs):
+            c, ops = rec['case'], rec['ops']
+            ctx.branch('session:%s/%s' % (ops['real'], ops['pl']))
+            ctx.branch('session:%s/%s:%s' % (ops['real'], ops['pl'], 'extint' if sess['ext'] else 'plain'))
+            ctx.branch('session:layout-' + ops.get('layout', 'first'))
+            ctx.branch('session:solver-' + ops['sol'])
+            if c['noise'] is not None:
+                ctx.branch('noise-type:' + (c.get('ntype') or 'float'))
+            for what in ('ic', 'jp'):
+                jobs.append((what, (si, i), c, rec[what][0], rec[what][1]))
+                lines.append(chan_line(c, what == 'jp'))
+            o = rec.get('sol')
+            if isinstance(o, dict):
+                jobs.append(('solver', (si, i), c, o, None))
+                lines.append(solver_line(c, o['full_W_H']))
+    settle(ctx, jobs, lines, prefix='session:')
 
 
 def corr_capacity(ctx, rng, n):
@@ -1001,7 +1297,22 @@ def corpus_cases():
     import os
     for fn in sorted(glob.glob(os.path.join(core.VERIF, 'corpus', 'c11', '*.json'))):
         with open(fn) as f:
-            out.append(json.load(f)['case'])
+            d = json.load(f)
+        if 'case' in d:
+            out.append(d['case'])
+    return out
+
+
+def corpus_sessions():
+    import glob
+    import json
+    import os
+    out = []
+    for fn in sorted(glob.glob(os.path.join(core.VERIF, 'corpus', 'c11', '*.json'))):
+        with open(fn) as f:
+            d = json.load(f)
+        if 'session' in d:
+            out.append(d['session'])
     return out
 
 
@@ -1015,7 +1326,7 @@ def gen_cases(ctx, n):
         cases.append(c)
     for _ in range(max(4, n // 12)):
         c = g.zero_case()
-        c['solver'] = False
+        c['solver'] = bool(c.get('solver_ok'))
         cases.append(c)
     return cases
 
@@ -1040,7 +1351,14 @@ def layout_sweep(ctx):
     return cases
 
 
-def oracles(ctx, cases):
+def gen_sessions(ctx, n):
+    g = Gen(ctx.rng.fork('sessions'), ctx.tier)
+    return [g.session() for _ in range(n)]
+
+
+def oracles(ctx, cases, sessions=()):
+    for i, sess in enumerate(sessions):
+        run_oracle(ctx, 'session', sess, key=('session', i, sess['ext'], sess['kind'], len(sess['steps'])))
     for i, case in enumerate(cases):
         key = case_key(case, i)
         run_oracle(ctx, 'calc_SINR', case, key=key)
@@ -1062,32 +1380,48 @@ def check(ctx):
                 'unequal transmit powers; precoders and filters arbitrary (complex Gaussian, Gaussian integers, '
                 'widely unequal norms), never aligned on purpose; plus exact zero-denominator scenarios. Every '
                 'scenario is evaluated as interference channel and as joint processing, every second one also '
-                'through the IA solver. non-trivial = distinct (layout, class of channel object, generator kind, '
-                'noise kind, path-loss presence, index, code path)')
+                'through the IA solver. noise_var / pe / P in every numeric type (Python int, float, bool, numpy '
+                'ints and floats of several widths, P as array / list / scalar), channels also integer and real '
+                'dtype. Sessions: one channel object + one solver re-used over 2..6 scenarios (new realisation by '
+                'init_from_channel_matrix / randomize, same or new layout, path loss kept / set / removed, noise, '
+                'post filters, solver re-synchronised or left alone), everything re-checked after every step '
+                'against the model, first principles and a fresh object. non-trivial = distinct (layout, class '
+                'of channel object, generator kind, noise kind, path-loss presence, index, code path)')
     quick = ctx.tier == 'quick'
     core.prove(ctx, MODULE, generated=[], drivers=[DRIVER], scratch=ctx.scratch)
     ctx.required_branches = ['ic', 'jp', 'solver', 'extint', 'plain', 'noise:none', 'noise:zero', 'noise:pos',
                              'pathloss', 'no-pathloss', 'zero-division', 'K=1', 'K>=3', 'multi-stream',
                              'multi-ext-source', 'unequal-power', 'pe:default', 'pe:zero', 'pe:pos', 'capacity',
-                             'kind:gauss', 'kind:gint', 'kind:wide']
+                             'kind:gauss', 'kind:gint', 'kind:wide', 'kind:rint', 'dtype:int', 'dtype:float',
+                             'session:randomize/keep', 'session:init/keep', 'session:keep/set', 'session:keep/none',
+                             'session:keep/set:extint', 'session:keep/set:plain', 'session:randomize/keep:extint',
+                             'session:randomize/keep:plain', 'session:init/keep:extint', 'session:init/keep:plain',
+                             'session:layout-antennas', 'session:layout-users', 'session:solver-untouched',
+                             'session:solver-sync', 'session:solver-P', 'session:solver-precoders',
+                             'session:solver-filters', 'session:solver-randomizeF'] + ['noise-type:' + t for t in NUMTYPES] + \
+                            ['pe-type:' + t for t in NUMTYPES] + \
+                            ['P-type:' + t for t in ('float', 'int', 'np.int32', 'np.float32', 'list', 'scalar:int',
+                                                     'scalar:float', 'scalar:np.float32', 'scalar:np.int64')]
     cases = corpus_cases() + gen_cases(ctx, 500 if quick else 5000)
     if not quick:
         cases += layout_sweep(ctx)
+    sessions = corpus_sessions() + gen_sessions(ctx, 160 if quick else 1500)
     try:
-        correspondence(ctx, [c for c in cases if c.get('dtype', 'complex') == 'complex'])
+        correspondence(ctx, cases)
+        corr_sessions(ctx, sessions)
         corr_capacity(ctx, ctx.rng.fork('capc'), 40 if quick else 400)
     except core.Infra as e:
         if not ctx.broken:
             raise
         ctx.notes.append('correspondence skipped: %s' % e)
         ctx.required_branches = []
-    oracles(ctx, cases)
+    oracles(ctx, cases, sessions)
 
 
 def search(ctx):
     """deeper failing-input search, used when a proof / correspondence broke"""
     before = len(ctx.failures)
     for _ in range(4):
-        oracles(ctx, gen_cases(ctx, 400))
+        oracles(ctx, gen_cases(ctx, 400), gen_sessions(ctx, 100))
         if len(ctx.failures) > before:
             return
